@@ -47,7 +47,7 @@ VARIABLES dummy2
 InitC == /\ dummy = 0 /\ dummy2 = 0
          /\ \E q \in BaseAtt \cup LevelYaw : tv = [op |-> "seedq", q |-> q]
 NextC == UNCHANGED <<dummy, dummy2>> /\ tv.op = "seedq" /\ LET q == tv.q IN
-   \/ \E decl \in Angles, incl \in Incls, gs \in {"ok", "half", "double"} :
+   \/ \E decl \in Angles, incl \in Incls, gs \in {"ok", "half", "double", "low", "high", "std"} :      \* low/high/std: |g| = 9.0, 10.7, 9.81 -- not the nominal 9.8, yet a gravity vector a node accepts
         tv' = [op |-> "init", q |-> q, decl |-> decl, incl |-> incl, gscale |-> gs,
                gdir |-> RtVec(q, <<0, 0, -1>>), bb |-> RtVec(q, Bn(decl, incl)), bn |-> Bn(decl, incl), N |-> QNorm(q)]
    (* degenerate measurements: the attitude is not determined (field parallel / anti-parallel to
